@@ -127,7 +127,15 @@ def fam_minmax(R, deg, degenerate, shard=(0, 1)):
             return {'cls': 'bbox degree %d%s' % (deg, ' (degenerate cubic)' if degenerate else ''), 'inputs': {'coords': av, 't': mval(m, t)},
                     'script': REPLAY_MM % (av, mval(m, t))}
         robust = [zabs(x.e) <= 20 for x in a] + [z3.Or(Bt.e > mx.e + 0.05, Bt.e < mn.e - 0.05)]
-        R.ob('deg%d.contains' % deg, ctx, z3.And(mn.e <= Bt.e, Bt.e <= mx.e), extra=rng, cex=cex, robust=robust, timeout_ms=90000)
+        v_ = R.ob('deg%d.contains' % deg, ctx, z3.And(mn.e <= Bt.e, Bt.e <= mx.e), extra=rng, cex=cex, robust=robust, timeout_ms=90000)
+        if v_ == 'unknown' and deg == 3 and not getattr(R, '_probed_minmax', False):
+            # undecided: probe the real function on fixed S-shaped / overshooting coordinate polynomials (confirms a wrong box, proves nothing)
+            R._probed_minmax = True
+            for av_, tv_ in (([0.0, 40.0, -30.0, 10.0], 0.2), ([0.0, 6.0, -5.0, 1.0], 0.8), ([0.0, 400.0, -300.0, 100.0], 0.75), ([3.0, -2.0, 7.0, 1.0], 0.5),
+                             ([1.0, 5.0, 5.0, 1.0], 0.5), ([0.0, 3.0, -2.0, 1.0], 0.3)):
+                if R.probe('deg%d.contains' % deg, {'cls': 'bbox degree %d%s' % (deg, ' (degenerate cubic)' if degenerate else ''),
+                                                    'inputs': {'coords': av_, 't': tv_}, 'script': REPLAY_MM % (av_, tv_)}):
+                    break
         # tightness: both bounds are attained on [0,1]
         s_, u_ = symr('s_attain_min'), symr('s_attain_max')
         # (exists s in [0,1]: B(s) = mn) -- shown constructively: mn/mx are values at 0, 1 or a critical point the code computed
